@@ -87,6 +87,8 @@ type Focus struct {
 	Only20Pct  int            // percent of cases restricted to 20-byte addresses everywhere (avoids a listed finding's trigger)
 	only20     bool           // drawn per case
 	foreign    bool           // drawn per case: prices in the second token (and no base-denomination change)
+	multi      bool           // drawn per case: accounts hold a second coin as well
+	MultiPct   int            // percent of the cases in which accounts hold a second coin (invariant-only properties)
 }
 
 func FocusFor(prop string, tier string) Focus {
@@ -102,6 +104,9 @@ func FocusFor(prop string, tier string) Focus {
 	switch prop {
 	case "C01", "C02":
 		mul(2, KRespond, KWithdraw, KCall)
+		if prop == "C01" {
+			f.MultiPct = 20
+		}
 	case "C03", "C14":
 		mul(3, KBind, KUpdateBind, KDisable, KEnable, KRefundDep)
 		f.ModSvcPct = 5
@@ -129,6 +134,7 @@ func FocusFor(prop string, tier string) Focus {
 		mul(2, KCall, KModPause, KModStart)
 		if prop == "C11" {
 			f.Boundary = 10
+			f.MultiPct = 15
 		}
 		if prop == "C10" {
 			// C10 quantifies over messages, batch starts and expiries; a zero-height restart cancels the
@@ -151,9 +157,11 @@ func FocusFor(prop string, tier string) Focus {
 		mul(2, KUpdateBind)
 	case "C16":
 		mul(2, KCall, KRespond, KKill, KPause)
+		f.MultiPct = 15
 	case "C19":
 		f.Only20Pct = 60
 	case "C20":
+		f.MultiPct = 20
 		f.Boundary = 10
 		f.ModSvcPct = 30
 		mul(2, KWithdraw, KRespond)
@@ -193,6 +201,16 @@ func GenConfig(t *rapid.T, f Focus) Config {
 			opts = []int64{1e6, 0, 1, 50, 1000, 1e12}
 		}
 		c.Funding[s] = rapid.SampledFrom(opts).Draw(t, fmt.Sprintf("fund%d", i))
+	}
+	if f.multi {
+		c.FundingPoint = map[string]int64{}
+		for i, s := range Signers {
+			opts := []int64{1e6, 1e12, 50, 0}
+			if i < 2 {
+				opts = []int64{1e12, 1e9} // the owners of the prelude can always cover a deposit
+			}
+			c.FundingPoint[s] = rapid.SampledFrom(opts).Draw(t, fmt.Sprintf("fundp%d", i))
+		}
 	}
 	if f.foreign && pct(t, "exchange_service", f.ExchangePct) {
 		c.ExchangeRate = "1"
@@ -261,6 +279,13 @@ func (f *Focus) DrawCaseFlags(t *rapid.T) {
 	// minimum deposit of a "point" price means once "point" is the base denomination, with every
 	// deposit in "stake", is not something the properties settle
 	f.foreign = pct(t, "foreign_price_case", f.ForeignCasePct)
+	// a third kind of case (invariant-only properties): a second coin really exists, and governance
+	// is likely to move the base denomination to it, after which deposits, fees and earnings are
+	// made in it next to the records made before
+	if pct(t, "two_coin_case", f.MultiPct) {
+		f.multi, f.foreign = true, false
+		f.DenomChangePct, f.ParamChangeW = 70, 4
+	}
 }
 
 func (g *GenState) Observe(r *StepRec) {
@@ -295,7 +320,36 @@ func GenPricing(t *rapid.T, nowNs int64) string { return GenPricingIn(t, nowNs, 
 // genPriceDenom: the token a new price is quoted in. Prices in the other token are drawn only in
 // the foci that model them (ForeignPricePct): often when the host runs an exchange-rate service,
 // rarely when it does not (such a provider cannot be priced and never qualifies).
+// genDepDenom: deposits are sent in the base denomination in force where a second coin exists
+func (g *GenState) genDepDenom(t *rapid.T) string {
+	if !g.F.multi {
+		return ""
+	}
+	bd := g.Cfg.baseDenom()
+	if pct(t, "deposit_in_other_coin", 8) {
+		if bd == "stake" {
+			return "point"
+		}
+		return ""
+	}
+	if bd == "stake" {
+		return ""
+	}
+	return bd
+}
+
 func (g *GenState) genPriceDenom(t *rapid.T) string {
+	if g.F.multi {
+		// prices follow the base denomination in force (mostly)
+		bd := g.Cfg.baseDenom()
+		if pct(t, "price_in_other_coin", 12) {
+			if bd == "stake" {
+				return "point"
+			}
+			return "stake"
+		}
+		return bd
+	}
 	if !g.F.foreign {
 		if pct(t, "price_in_main_unit", 12) {
 			return "kstake"
@@ -750,12 +804,56 @@ func (g *GenState) genKind(t *rapid.T, exclude map[string]bool) string {
 	return KEndBlock
 }
 
+// twoCoinPrelude: business in "stake", a governance change of the base denomination to "point",
+// then business in "point" by the same owner, so that pending fees, earnings and deposits exist
+// in both coins when the random part of the history starts.
+func (g *GenState) twoCoinPrelude(t *rapid.T) []Action {
+	svc := pick(t, "tc_svc", ServiceNames)
+	owner := pick(t, "tc_owner", Signers[:2])
+	p1, p2 := Signers[0], Signers[1]
+	c1, c2 := pick(t, "tc_consumer1", Signers), pick(t, "tc_consumer2", Signers)
+	price := pick(t, "tc_price", []int64{10, 1, 100, 3})
+	timeout := pick(t, "tc_timeout", []int64{1, 2})
+	if timeout > g.Cfg.MaxTimeout {
+		timeout = g.Cfg.MaxTimeout
+	}
+	ok := RespShapes[0]
+	zero, one := 0, 1
+	dep := g.Cfg.MinDepositFor(price) + pick(t, "tc_dep_extra", []int64{0, 1, 500})
+	np := g.Cfg
+	np.Funding, np.FundingPoint, np.ModSvc = nil, nil, nil
+	np.BaseDenom = "point"
+	acts := []Action{
+		{Kind: KDefine, Signer: pick(t, "tc_author", Signers), Service: svc, Schemas: SchemasOK, Desc: "d"},
+		{Kind: KBind, Signer: owner, Service: svc, Provider: p1, Deposit: i64(dep), Pricing: fmt.Sprintf(`{"price":"%dstake"}`, price), QoS: 1, Options: "{}"},
+		{Kind: KCall, Signer: c1, Service: svc, Providers: []string{p1}, Input: InputOK, FeeCap: i64(1e9), Timeout: timeout,
+			Repeated: pct(t, "tc_repeated1", 40), Freq: uint64(timeout) + 1, Total: -1},
+		{Kind: KEndBlock, DeltaNs: 5e9},
+	}
+	if pct(t, "tc_respond1", 60) {
+		acts = append(acts, Action{Kind: KRespond, ReqRef: &zero, Signer: p1, Result: ok.Result, Output: ok.Output, OutClass: ok.Class})
+	}
+	acts = append(acts,
+		Action{Kind: KSetParams, Params: &np},
+		Action{Kind: KBind, Signer: owner, Service: svc, Provider: p2, Deposit: i64(dep), DepDenom: "point", Pricing: fmt.Sprintf(`{"price":"%dpoint"}`, price), QoS: 1, Options: "{}"},
+		Action{Kind: KCall, Signer: c2, Service: svc, Providers: []string{p2}, Input: InputOK, FeeCap: i64(1e9), CapDenom: "point", Timeout: timeout,
+			Repeated: pct(t, "tc_repeated2", 40), Freq: uint64(timeout) + 1, Total: -1},
+		Action{Kind: KEndBlock, DeltaNs: 5e9})
+	if pct(t, "tc_respond2", 60) {
+		acts = append(acts, Action{Kind: KRespond, ReqRef: &one, Signer: p2, Result: ok.Result, Output: ok.Output, OutClass: ok.Class})
+	}
+	return acts
+}
+
 // GenPrelude draws a short productive opening (define, bind one to three providers with a
 // sufficient deposit, call them, end the block) so that a good share of the histories reaches
 // issued requests, responses and earnings. Every choice is still drawn through rapid.
 func (g *GenState) GenPrelude(t *rapid.T) []Action {
 	if !pct(t, "prelude", g.F.PreludePct) {
 		return nil
+	}
+	if g.F.multi && pct(t, "pre_twocoin", 70) {
+		return g.twoCoinPrelude(t)
 	}
 	variant := pick(t, "pre_variant", []string{"standard", "standard", "standard", "refund", "contention", "lastbatch", "standard", "module"})
 	if ms := g.Cfg.ModSvc; ms != nil && ms.Provider != hx(rep(0x5d, 20)) && pct(t, "pre_twins", 50) {
@@ -1088,7 +1186,7 @@ func (g *GenState) genOfKind(t *rapid.T, kind string) Action {
 			base = g.Cfg.InBase(rp)
 		}
 		return Action{Kind: KBind, Signer: owner, Service: svc, Provider: prov,
-			Deposit: g.genDepositAround(t, g.Cfg.MinDepositFor(base), 0), Pricing: pricing,
+			Deposit: g.genDepositAround(t, g.Cfg.MinDepositFor(base), 0), DepDenom: g.genDepDenom(t), Pricing: pricing,
 			QoS: g.genQoS(t), Options: "{}"}
 	case KUpdateBind, KDisable, KEnable, KRefundDep:
 		bl := g.bindingsList()
@@ -1100,6 +1198,12 @@ func (g *GenState) genOfKind(t *rapid.T, kind string) Action {
 		}
 		a := Action{Kind: kind, Service: b.ServiceName, Provider: hx(b.Provider), Signer: g.signerFor(t, hx(b.Owner))}
 		have := stakeOf(b.Deposit)
+		if kind == KUpdateBind || kind == KEnable {
+			a.DepDenom = g.genDepDenom(t)
+			if a.DepDenom != "" {
+				have = mustI64(b.Deposit.AmountOf(a.DepDenom))
+			}
+		}
 		switch kind {
 		case KUpdateBind:
 			a.Options = "{}"
